@@ -8,6 +8,7 @@ import (
 	"fmt"
 	"os"
 	"runtime"
+	"sync"
 	"unsafe"
 )
 
@@ -149,4 +150,12 @@ func vWithin(inner, outer []byte) bool {
 	pi := uintptr(unsafe.Pointer(&inner[:1][0]))
 	po := uintptr(unsafe.Pointer(&outer[:1][0]))
 	return pi >= po && pi+uintptr(len(inner)) <= po+uintptr(len(outer))
+}
+
+func vMutexFree(mu *sync.Mutex) bool {
+	if mu.TryLock() {
+		mu.Unlock()
+		return true
+	}
+	return false
 }
